@@ -505,9 +505,39 @@ def list_depth(t):
     raise ValueError(t)
 
 
-def gen_array(rng, depth=3, toplen=None, canonical_too=True, enc_kw=None, type_kw=None, special=True):
+def gen_union_type(rng, depth, under_list=None, **kw):
+    """a union whose alternatives are (mostly) list types of different depths / list vs option-list vs record of lists,
+    optionally under one list level: the shape in which slicing, counting, padding ... descend *below* a union node"""
+    kw = dict(kw, allow_union=False)
+    for _ in range(50):
+        k = rng.choice([2, 2, 3])
+        alts, seen = [], []
+        for j in range(k):
+            r = rng.random()
+            if r < 0.75:
+                a = ('list', gen_type(rng, max(depth - 2, 0), **kw))
+                if rng.random() < 0.5:
+                    a = ('list', a)
+                if kw.get('allow_opt', True) and rng.random() < 0.2:
+                    a = ('opt', a)
+            else:
+                a = gen_type(rng, max(depth - 1, 0), **kw)
+            # lists of different depth are different kinds here (they do not merge)
+            key = ('list', list_depth(a)) if a[0] in ('list', 'opt') and type_key(a) == ('list',) else type_key(a)
+            if key not in seen:
+                seen.append(key)
+                alts.append(a)
+        if len(alts) >= 2:
+            t = ('union', alts)
+            if under_list if under_list is not None else rng.random() < 0.3:
+                t = ('list', t)
+            return t
+    return ('union', [('list', ('leaf', 'int64')), ('list', ('list', ('leaf', 'int64')))])
+
+
+def gen_array(rng, depth=3, toplen=None, canonical_too=True, enc_kw=None, type_kw=None, special=True, type_=None):
     """returns dict(type, vals, layout, canon)"""
-    t = gen_type(rng, depth, **(type_kw or {}))
+    t = type_ if type_ is not None else gen_type(rng, depth, **(type_kw or {}))
     n = toplen if toplen is not None else rng.choice([0, 1, 2, 3, 3, 4, 5])
     vals = rectangularise(rng, t, [gen_value(rng, t, 4, special) for _ in range(n)])
     enc = Enc(rng, **dict(dict(special=special), **(enc_kw or {})))
@@ -820,6 +850,24 @@ def has_rec_under_list(t, under=False):
         return under or any(has_rec_under_list(ft, under) for _, ft in t[1])
     if k == 'union':
         return any(has_rec_under_list(a, under) for a in t[1])
+    return False
+
+
+def has_mixed_union_under_list(t, under=False):
+    """a union whose alternatives have different list depths, below at least one list level: a negative axis cannot be
+    resolved above it and every alternative then resolves it relative to itself (known finding)"""
+    k = t[0]
+    if k in ('leaf', 'str'):
+        return False
+    if k == 'list':
+        return has_mixed_union_under_list(t[1], True)
+    if k == 'opt':
+        return has_mixed_union_under_list(t[1], under)
+    if k == 'rec':
+        return any(has_mixed_union_under_list(ft, under) for _, ft in t[1])
+    if k == 'union':
+        ds = set(list_depth(a) for a in t[1])
+        return (under and (len(ds) > 1 or any(d[0] != d[1] for d in ds))) or any(has_mixed_union_under_list(a, under) for a in t[1])
     return False
 
 
